@@ -100,6 +100,71 @@ def cuboid_local_laws(ctx, n):
     return fails, worst
 
 
+def triangle_jacobian(v, pol, p):
+    """`TriDiv.triJac v0 v1 v2 pol p` of Lemmas/TriangleDiv.lean: the nine partial derivatives of triangle_Bfield off the plane of the
+    triangle (Props/C14 `triangle_partials`): sigma/(4 pi) * (n (x) grad Omega + sum_i (L_i x n) (x) grad I_i), with
+    grad Omega = -sum_i beta_i R_i x L_i (Biot-Savart sum over the boundary)"""
+    v, pol, p = np.asarray(v, float), np.asarray(pol, float), np.asarray(p, float)
+    nn = np.cross(v[1] - v[0], v[2] - v[0])
+    n = nn / np.linalg.norm(nn)
+    R = v - p
+    r = np.linalg.norm(R, axis=1)
+    g_omega, J = np.zeros(3), np.zeros((3, 3))
+    for i in range(3):
+        j = (i + 1) % 3
+        A, B, L = R[i], R[j], v[j] - v[i]
+        l, rA, rB = np.linalg.norm(L), r[i], r[j]
+        qa, qb = A @ L, B @ L
+        beta = (rA + rB) / (rA * rB * (rA * rB + B @ A))
+        g_omega -= beta * np.cross(A, L)
+        g_i = A / (rA * (l * rA + qa)) + L / (l * (l * rA + qa)) - B / (rB * (l * rB + qb)) - L / (l * (l * rB + qb))
+        J += np.outer(np.cross(L, n), g_i)
+    J += np.outer(n, g_omega)
+    return (n @ pol) / np.pi / 4 * J
+
+
+def triangle_local_laws(ctx, n):
+    """the proved Jacobian of the Triangle sheet (Props/C14 `triangle_partials`) against 4th-order central differences of the REAL
+    kernel triangle_Bfield at random observers off the plane of the triangle; its trace (div B) and antisymmetric part (curl H)"""
+    from magpylib._src.fields.field_BH_triangle import triangle_Bfield
+    rng, fails, worst = ctx.rng, [], 0.0
+    for _ in range(n):
+        nps = np.random.default_rng(rng.randrange(2**31))
+        v, pol = nps.uniform(-1.5, 1.5, (3, 3)), nps.normal(size=3)
+        nn = np.cross(v[1] - v[0], v[2] - v[0])
+        size = max(np.linalg.norm(v[1] - v[0]), np.linalg.norm(v[2] - v[1]), np.linalg.norm(v[0] - v[2]))
+        if np.linalg.norm(nn) < 0.05 * size**2:
+            continue                                           # sliver: skip (the closed form loses digits, not a law)
+        nrm = nn / np.linalg.norm(nn)
+        if rng.random() < 0.5:                                 # over / near the triangle at a moderate height (either side)
+            w = nps.dirichlet(np.ones(3)) * nps.uniform(0.5, 1.6) 
+            w = w / w.sum() if rng.random() < 0.5 else w
+            p = w @ v + nrm * size * nps.uniform(0.1, 1.5) * rng.choice([-1, 1])
+        else:
+            p = v.mean(axis=0) + nps.uniform(-2.5, 2.5, 3) * size
+        gap = abs((p - v[0]) @ nrm)
+        if gap < 0.08 * size:
+            continue
+        h = 2e-3 * gap
+        B = lambda q: triangle_Bfield(observers=np.atleast_2d(q), vertices=np.tile(v, (len(np.atleast_2d(q)), 1, 1)),
+                                      polarizations=np.tile(pol, (len(np.atleast_2d(q)), 1)))
+        J = np.zeros((3, 3))
+        for j in range(3):
+            e = np.zeros(3)
+            e[j] = h
+            f = B(np.array([p + 2 * e, p + e, p - e, p - 2 * e]))
+            J[:, j] = (-f[0] + 8 * f[1] - 8 * f[2] + f[3]) / (12 * h)
+        Ja = triangle_jacobian(v, pol, p)
+        scale = max(np.abs(Ja).max(), np.abs(J).max()) + 1e-300
+        err = max(np.abs(J - Ja).max(), abs(np.trace(J)), np.abs(J - J.T).max()) / scale
+        worst = max(worst, float(err))
+        if not err < 1e-6:
+            fails.append({"key": "integral-law:triangle-local-jacobian",
+                          "desc": f"partial derivatives of triangle_Bfield differ from the proved Jacobian / div B, curl B not zero off the plane of the triangle (relative {err:.2g})",
+                          "replay": {"vertices": v.tolist(), "polarization": pol.tolist(), "observer": p.tolist(), "rel": float(err)}})
+    return fails, worst
+
+
 def sweep(ctx, n):
     import magpylib as magpy
 
@@ -278,4 +343,10 @@ def sweep(ctx, n):
         f2, w2 = cuboid_local_laws(ctx, max(4, n // 4))
     fails += f2
     worst["cuboid-local-jacobian"] = w2
+    # the proved Triangle Jacobian (Props/C14 triangle_partials) against the real kernel, off the plane of the sheet
+    with warnings.catch_warnings():
+        warnings.simplefilter("ignore")
+        f3, w3 = triangle_local_laws(ctx, max(6, n // 3))
+    fails += f3
+    worst["triangle-local-jacobian"] = w3
     return fails, {"c14_cases": done, "c14_worst": {k: float(f"{v:.3g}") for k, v in worst.items()}}
